@@ -1,25 +1,26 @@
 #!/bin/bash
 # refac_eval.sh <group letter> : behaviour-preserving refactorings produced by sub-agents (/tmp/refac_<g>/OUT/r<k>.diff) are copied to /verif/benign/<g>/,
-# applied one at a time to /repo, all twenty quick checks are run (every one must exit 0: anything else is a false alarm), /repo is restored.
+# applied one at a time to a scratch worktree of /repo, all twenty quick checks are run against it (every one must exit 0: anything else is a false alarm).
 g=$1
 src=/tmp/refac_$g/OUT
 dst=/verif/benign/$g
 mkdir -p $dst
 [ -d $src ] && cp $src/r*.diff $src/r*.txt $dst/ 2>/dev/null
-cd /repo
+wt=$(mktemp -d /tmp/refwt_${g}_XXXX)
+rmdir $wt
+git -C /repo worktree add -q --detach $wt HEAD || exit 3
+trap 'git -C /repo worktree remove --force '$wt' 2>/dev/null; rm -rf '$wt' /tmp/refrep_'$g'; git -C /repo worktree prune' EXIT
 for p in $dst/r*.diff; do
   k=$(basename $p .diff)
-  if ! git diff --quiet; then echo "/repo is dirty"; exit 3; fi
-  if ! git apply $p 2>/dev/null; then echo "$g/$k: does not apply"; continue; fi
+  if ! git -C $wt apply $p 2>/dev/null; then echo "$g/$k: does not apply"; continue; fi
   bad=""
-  for prop in C01 C02 C03 C04 C05 C06 C07 C08 C09 C10 C11 C12 C13 C14 C15 C16 C17 C18 C19 C20; do
-    out=$(cd /verif && ORV_NO_EVIDENCE=1 ORV_REPORTS=/tmp/refrep_$g ./orcheck $prop --tier quick 2>&1); rc=$?
+  for prop in ${PROPS:-C01 C02 C03 C04 C05 C06 C07 C08 C09 C10 C11 C12 C13 C14 C15 C16 C17 C18 C19 C20}; do
+    out=$(cd /verif && ORV_REPO=$wt ORV_NO_EVIDENCE=1 ORV_REPORTS=/tmp/refrep_$g ./orcheck $prop --tier quick 2>&1); rc=$?
     if [ $rc -ne 0 ]; then
       bad="$bad $prop($rc)"
       echo "   [$g/$k] $prop exit $rc: $(echo "$out" | grep -E ': C[0-9]+\.R|ANALYSIS-BROKEN' | grep -v KNOWN | head -2 | cut -c1-330)"
     fi
   done
-  echo "$g/$k: ${bad:- all 20 checks silent}   -- $(head -c 160 $dst/$k.txt 2>/dev/null)"
-  git checkout -- .
+  echo "$g/$k: ${bad:- all checks silent}   -- $(head -c 140 $dst/$k.txt 2>/dev/null | tr '\n' ' ')"
+  git -C $wt checkout -q -- . ; git -C $wt clean -qfd -e .cache >/dev/null 2>&1
 done
-rm -rf /tmp/refrep_$g
